@@ -32,6 +32,18 @@ CHECKS = {
         "text": "Every binary operator over all 64x64 posting-list alignments of a 6-document universe corpus with 1-3 postings per block (so block skipping and matcher replacement engage, which is measured), 3-leaf/nested/boosted/special-leaf trees over 12 representative alignments, k=1..5, eight weighting configurations, filter/mask/collapse/terms variants: the limited search must equal the prefix of the unlimited one. Complete within those bounds.",
         "note": "Trusted: search(limit=None) as the reference ranking (its own correctness is C01/C09), float tolerance 1e-9. Bounds: 6 documents, depth<=2.",
     },
+    "C06": {
+        "engine": "E1", "level": "exploration",
+        "technique": "bounded-exhaustive enumeration of operation lists x commit splits x per-commit merge choices x block sizes x writer front-ends on the real code, layouts merged by physical signature, each compared with the single-commit optimised build and a dictionary model",
+        "text": "Operation lists up to length 3-7 over {add, group(parent,child), update, delete, update of a deleted key, remove_field} on a schema covering positions/chars/boosts, vectors, columns and stored-only fields; every split into commits x {merge=False, default MERGE_SMALL, optimize, custom merge of the two oldest segments} x blocklimit {2,128} x {plain, BufferedWriter, AsyncWriter, SerialMpWriter, MpWriter in real processes}. Every reached physical layout is dumped (stored values, lexicon, postings with weights/positions/chars/boosts, lengths, vectors, columns, statistics and BM25F scores when nothing is deleted) and must equal the reference; optimize must leave one clean segment; groups must stay adjacent.",
+        "note": "Trusted: canonical dump (mc/dump.py) keyed by the stored unique key; layouts with equal segment signatures are assumed to have equal futures; layout-dependent quantities are only compared when no document is deleted.",
+    },
+    "C07": {
+        "engine": "E4", "level": "model_checking",
+        "technique": "explicit-state BFS where one transition is one writer transaction on a real index, states deduplicated by a canonical form of the real index, dictionary model checked through every read API in every state",
+        "text": "Transactions of 0-2 ops (thorough 3) from {add, update, delete_by_term on key/word, delete_by_query over Or/Not/Every/And, delete_document on every live docnum, undelete, add_field/remove_field} x endings {commit merge=False / default / optimize, cancel, exception in with-block, with-exit, Index convenience calls} x unique-field configurations {ID, NUMERIC, two unique fields} x storage, from the empty index and from a 5-segment index with deletions; BFS to depth 3-4 (thorough 4-5). In every state all read APIs must agree with the dictionary model; delete_by_* return values are exact; cancel/exception leave dump, generation and lock exactly as before.",
+        "note": "Trusted: dictionary model with the documented update/delete semantics; canonical state = per-segment (key, text, deleted) lists + schema.",
+    },
     "C08": {
         "engine": "E1", "level": "exploration",
         "technique": "bounded-exhaustive enumeration of value alphabets x presence patterns x segment layouts x storage configurations, and of column types x row counts around internal thresholds x sparse patterns, on the real code against a Python list/dict model",
@@ -55,6 +67,12 @@ CHECKS = {
         "technique": "explicit-state BFS over matcher call programs on real matcher objects with state hashing (digest of the real object graph + model position), against a list model",
         "text": "For every matcher built from the C01 query families over U(2..4) (scored and boolean contexts, with deletions, multi-segment MultiMatcher leaves) and directly constructed array/preloaded/filter/inverse/wrapping/list/span matchers: all call programs over {next, skip_to(t), skip_to_quality(0), replace(), copy, copy+advance, reset} up to depth 4 (thorough 6) are explored breadth-first with deduplication; in every state the cursor must sit at the model position and read what a fresh next()-only traversal read there; the list must equal the reference evaluator's result.",
         "note": "Trusted: the object's own fresh next()-only traversal as list model (cross-checked against mc/qast.py), the generic state digest. Only calls whose documented precondition holds are made.",
+    },
+    "C12": {
+        "engine": "E4", "level": "model_checking",
+        "technique": "explicit-state BFS over matcher call programs on real matcher objects (states merged by object-graph digest), quality invariants and threshold operations checked in every reachable state against the list model",
+        "text": "For every matcher tree of the families leaf/two/three/and3/boost/nested/direct over U(6) with 1-3 postings per block, single and multi-segment, with deletions, and every weighting that claims quality support (BM25F variants, TF_IDF, Frequency, Multi; PL2/DFree/Reverse/Function must not claim it): in every state reachable by {next, skip_to, copy, replace(0)} programs to depth 3-4: block_quality() >= current score (leaf: >= every score of the block), max_quality() >= every remaining score; for every threshold from the remaining scores, bounds, midpoints, 0, -1, max+1: skip_to_quality(q), replace(q) and replace(q)+skip_to_quality(q) never lose an entry scoring above q nor change its score. Plus monotonicity of length_to_byte/byte_to_length and of the scoring functions on the stored grid.",
+        "note": "Trusted: list model from a fresh next()-only traversal; mbfs state digest; tolerance 1e-9.",
     },
     "C13": {
         "engine": "E1", "level": "exploration",
